@@ -208,6 +208,7 @@ type VC struct {
 	recSpecs map[string]*recSpecInfo
 	nameCount map[string]int
 	mapLenUse int // 0 unknown, 1 yes, -1 no
+	curClo    *closureVal // closure being called (for contracts that mention captured variables)
 	callRes   map[string][]Val // results of the latest call per callee in the function under verification
 	callCount map[string]int
 	lemma     *Lemma
